@@ -27,6 +27,7 @@ def T(checks, shards=1, timeout=600, **kw):
 
 
 PROPS = {}
+QUEUES = [{"RUEIDIS_QUEUE_TYPE": "ring", "VERIF_LABEL": "ring"}, {"RUEIDIS_QUEUE_TYPE": "flowbuffer", "VERIF_LABEL": "fb"}]
 ALL_IDS = ['C01', 'C02', 'C03', 'C04', 'C05', 'C06', 'C07', 'C08', 'C09', 'C10', 'C11', 'C12', 'C13', 'C14', 'C15', 'C16', 'C17', 'C18', 'C19', 'C20', 'C21', 'C22', 'C23', 'C24', 'C25', 'C26', 'C27', 'C28', 'C29', 'C30', 'C31', 'C32', 'C33', 'C34', 'C35', 'C36', 'C37', 'C38', 'C39', 'C40', 'C41', 'C42', 'C43', 'C44', 'C45', 'C46', 'C47']
 
 PROPS["C18"] = dict(
@@ -163,7 +164,10 @@ PROPS["C02"] = dict(
     technique="property-based testing (rapid) of generated timed schedules inside a testing/synctest bubble, directly on the ring and flow-buffer queues, with history invariants (exactly-once, FIFO, own-result) and bubble deadlock detection",
     level_text="Generated API-level interleavings (every queue call at its own virtual instant, same-instant calls racing) of up to 12 putters with mirrored writer/reader loops, slot counts 2-8 and the ring index forced to wrap; a lost wake-up shows up as a bubble deadlock, which is detected soundly.",
     level_note="The writer/reader loops mirror pipe._backgroundWrite/_backgroundRead; preemption points inside one queue call are explored only through same-instant races and repetition (plus -race in the thorough tier). No trace hook is needed: every transition is observable from inside the package. " + LIMITS,
-    units=[U("inpkg", "rueidis", "TestVerif_C02_Queue", T(4000), T(20000, shards=16), race=True)],
+    units=[
+        U("inpkg", "rueidis", "TestVerif_C02_Queue", T(4000, timeout=300), T(20000, shards=16), race=True),
+        U("harness", "props", "TestVerif_C02_FullQueuePartialFlush", T(300, timeout=300), T(3000, shards=8, timeout=900), variants=QUEUES),
+    ],
 )
 
 PROPS["C24"] = dict(
@@ -176,8 +180,6 @@ PROPS["C24"] = dict(
         U("inpkg", "rueidis", "TestVerif_C24_PoolLostWakeup", T(150), T(1000, shards=8)),
     ],
 )
-
-QUEUES = [{"RUEIDIS_QUEUE_TYPE": "ring", "VERIF_LABEL": "ring"}, {"RUEIDIS_QUEUE_TYPE": "flowbuffer", "VERIF_LABEL": "fb"}]
 
 PROPS["C01"] = dict(
     level="exploration",
@@ -272,6 +274,129 @@ PROPS["C42"] = dict(
         U("harness", "props", "TestVerif_C42_MockDifferential", T(150000), T(600000, shards=16)),
         U("harness", "props", "TestVerif_C42_Reference", T(30000), T(300000, shards=16)),
     ],
+)
+
+PROPS["C06"] = dict(
+    level="exploration",
+    technique="property-based testing (rapid) of generated histories (cached reads, writes by other clients, flushes, expiries, connection kills) in a synctest bubble against a fake server that emits invalidations in Redis order; oracle = versioned values checked against the server's write history",
+    level_text="Every hit carries key@version; a hit is a violation if that version had been overwritten, deleted, flushed or expired at an earlier virtual instant than the start of the call (quiescence between instants guarantees the push was processed). OPTIN/OPTOUT/BCAST, static TTL, LRU and SimpleCacheAdapter stores.",
+    level_note="One pipeline connection (PipelineMultiplex -1) so that 'the connection' is unambiguous. Same-instant write/read pairs race and are not asserted. " + LIMITS,
+    units=[U("harness", "props", "TestVerif_C06_NoStaleHits", T(1500, timeout=300), T(6000, shards=16, timeout=1500), variants=QUEUES)],
+)
+
+PROPS["C07"] = dict(
+    level="exploration",
+    technique="model-based property testing (rapid state machine with an explicit clock) on both cache stores, plus end-to-end timed histories in a synctest bubble where request start and reply arrival are exact virtual instants",
+    level_text="Store level: generated Flight/Update/Cancel/Delete/clock histories against a map model of expiry = min(client expiry, server PXAT). End to end: fetched replies must report CachePXAT == min(start + client TTL, arrival + server PTTL) within 1 ms, hits the expiry of the entry that serves them, and no hit at or after expiry.",
+    level_note="The end-to-end part uses single-caller histories so that every read owns its fetch. " + LIMITS,
+    units=[
+        U("inpkg", "rueidis", "TestVerif_C07_StoreModel", T(4000), T(20000, shards=16), steps=40),
+        U("harness", "props", "TestVerif_C07_ExpiryEndToEnd", T(1500, timeout=300), T(6000, shards=16, timeout=1500), variants=QUEUES),
+    ],
+)
+
+PROPS["C09"] = dict(
+    level="exploration",
+    technique="property-based testing (rapid) of concurrent cached reads with delayed fetches in a synctest bubble; oracle = server receive log (every repeated fetch of a key needs an invalidation, expiry or connection loss in between) plus value currency",
+    level_text="Several callers read the same keys while the first fetch is held by server latency; the server log must show one fetch per flight and every reader must get a value of that key that was current during its call.",
+    level_note="Histories without caller cancellation (an owner that abandons its fetch legitimately hands its context error to the waiters, which C01 tolerates explicitly). " + LIMITS,
+    units=[U("harness", "props", "TestVerif_C09_SingleFlight", T(1500, timeout=300), T(5000, shards=16, timeout=1500), variants=QUEUES)],
+)
+
+PROPS["C11"] = dict(
+    level="exploration",
+    technique="property-based testing (rapid) of batched cached reads over keys in mixed cache states in a synctest bubble; oracle = per-position key identity of versioned values and key-set equality",
+    level_text="DoMultiCache, MGetCache and DoCache(MGET) batches with duplicates over keys that are hit, expired, pending or missing; position i / map entry k must carry a value of exactly that key that was current during the call.",
+    level_note="Single client with one pipeline connection in this unit; JsonMGetCache and the cluster split are covered by C31 / the cluster check when present. " + LIMITS,
+    units=[U("harness", "props", "TestVerif_C11_PositionalBatches", T(1500, timeout=300), T(5000, shards=16, timeout=1500), variants=QUEUES)],
+)
+
+PROPS["C30"] = dict(
+    level="exploration",
+    technique="property-based testing (rapid) of generated call histories in a testing/synctest bubble against a wire-level fake Redis that executes the Lua bodies; oracle = server frame log + log of script body executions + non-idempotent VEXEC marks, attributed to calls through a unique id in ARGV[1]/KEYS[1], plus a model of each script's return value",
+    level_text="One Lua object from each of the six constructors (with and without WithLoadSHA1) is shared by 1-3 callers running 1-6 Exec / ExecMulti(1-8) calls with 0-3 keys and 0-3 binary-safe arguments while another client flushes or pre-loads the server's script cache and SCRIPT LOAD fails at generated instants. Per call the body must run at most once, EVALSHA(_RO) must come first and EVAL(_RO) only after that call's NOSCRIPT reply, NoSha objects never send EVALSHA or SCRIPT LOAD, read-only objects only send *_RO commands, SCRIPT LOAD is only sent by ExecMulti or (WithLoadSHA1) by Exec while the SHA is unknown, and every result equals the script's return value for that call's own keys and arguments.",
+    level_note="Single client in this unit (no cluster: ExecMulti's load-to-every-node is exercised with one node). No connection faults: the retryable constructors are exercised for their command choice only; re-sending after a failure is the subject of C03/C28. Server latency is only generated without WithLoadSHA1 (Exec holds an RWMutex across SCRIPT LOAD, which the virtual clock cannot see through). Texts of Lua interpreter errors are not byte-exact in the fake, so for failing scripts only 'an error reply, equal to what the server sent' is asserted. " + LIMITS,
+    units=[U("harness", "props", "TestVerif_C30_Lua", T(1500, timeout=300), T(6000, shards=16, timeout=1500))],
+)
+
+PROPS["C35"] = dict(
+    level="exploration",
+    technique="property-based testing (rapid): generated configurations over the accepted (n, rate) domain x generated add/query/reset histories through the public API against a fake Redis that runs the filter's real Lua scripts (mini Lua interpreter) inside a testing/synctest bubble; oracle = model set of added items + positional agreement of ExistsMulti with Exists + monotonic Count",
+    level_text="Configurations from n=1..10^6 and rates from 10^-300 up to 1-10^-15 (with and without the read-only Exists script), histories of up to 30 Add/AddMulti/Exists/ExistsMulti/Count/Reset/Delete calls over pools of up to 50 items (empty, binary, long); every item of the model set must be reported present by Exists and at its position of ExistsMulti.",
+    level_note="Bitmaps are capped at 2^22 bits (the fake, like Redis, materialises the bitmap); larger accepted sizes up to 2^32 bits are not exercised. The mini Lua interpreter and the fake's BITFIELD are trusted (unit-tested in kit). " + LIMITS,
+    units=[U("harness", "props", "TestVerif_C35_Bloom", T(800, timeout=300), T(3000, shards=16, timeout=1500))],
+)
+
+PROPS["C26"] = dict(
+    level="exploration",
+    technique="property-based testing (rapid) of generated timed plans (Receive calls, context ends, (P|S)UNSUBSCRIBE commands, publishes, tagged commands, dedicated PubSubHooks, kill/Close) against a wire-level fake Redis inside a testing/synctest bubble; oracle = per-connection push log of the server + a model of the client-side fan-out",
+    level_text="Thousands of generated Pub/Sub histories with overlapping channel, pattern and shard subscriptions on one connection (RESP3) or on the separate RESP2 Pub/Sub connection; every Receive's return value and callback sequence is checked against the pushes the server logged for that connection (in-order, duplicate-free, nothing foreign, complete between the SUBSCRIBE answer and the earliest ending instant); hook channels must be closed with at most one value; interleaved tagged commands must get their own reply trees; both queue implementations.",
+    level_note="Events at exactly the same virtual microsecond are races and are not ordered by the oracle (any of the candidate outcomes is accepted, completeness is only required for pushes strictly before the earliest ending instant and after the answer to the call's own SUBSCRIBE). Kill scenarios run with DisableRetry (a Receive must fail instead of re-subscribing). The hook variant runs on RESP3 only. " + LIMITS,
+    units=[U("harness", "props", "TestVerif_C26_PubSub", T(1200, timeout=300), T(5000, shards=16, timeout=1500), variants=QUEUES)],
+)
+
+PROPS["C27"] = dict(
+    level="exploration",
+    technique="property-based testing (rapid) of generated timed plans (DoCache reads, external writes, expiries, flushes, multi-key invalidation frames, kills, Close, dedicated clients with SetOnInvalidations) against a wire-level fake Redis inside a testing/synctest bubble; oracle = per-connection invalidation push log of the server",
+    level_text="Generated histories in the three tracking modes (OPTIN, OPTOUT, BCAST with prefix): the sequence of OnInvalidations / SetOnInvalidations callback arguments of each connection must equal the invalidate pushes the server logged for that connection (keys, order, nil for flushes) followed by exactly one nil when the connection is lost; after releasing a dedicated client that installed a callback, CLIENT TRACKING OFF must reach the server before the next user command on the pooled connection; both queue implementations.",
+    level_note="Pushes sent in the same virtual microsecond in which the connection is opened, lost or released are races (optional in the comparison). The fake server's tracking table decides which writes produce pushes and is trusted; multi-key frames are injected by the scenario. " + LIMITS,
+    units=[U("harness", "props", "TestVerif_C27_Invalidations", T(1200, timeout=300), T(5000, shards=16, timeout=1500), variants=QUEUES)],
+)
+
+PROPS["C40"] = dict(
+    level="exploration",
+    technique="property-based testing (rapid): generated save/fetch/remove histories with 1-5 concurrent Saves of copies of one version in a synctest bubble against the fake server (real Lua save scripts, HSET/HGETALL, minimal JSON.*); oracle = optimistic-locking model (one winner per base version, version + 1, stored version read by another client) and field-by-field round trip",
+    level_text="Histories of 2-10 steps over two entities on the hash repository (a struct with every kind of the hash converter table) and the JSON repository (the same plus integer/float widths, maps, arrays): NewEntity, Save, Fetch/FetchCache, concurrent Saves at equal or staggered virtual instants, Saves from outdated copies, Remove; values include empty strings, non-UTF-8 bytes, numeric extremes, nil/non-nil pointers and nil/empty slices.",
+    level_note="Single client, healthy server, latency 0-1 ms. FetchCache is read after the client's connections have drained because the invalidation caused by a Save travels on another connection than the Save's reply. NaN/Inf and uint64 above MaxInt64 are not generated (encoding/json and RedisJSON do not carry them); JSON strings are valid UTF-8 (encoding/json replaces invalid bytes by design). RediSearch functions (Search, Aggregate, indexes) are out of scope. " + LIMITS,
+    units=[U("harness", "props", "TestVerif_C40_OM", T(1500, timeout=300), T(8000, shards=16, timeout=1500))],
+)
+
+PROPS["C36"] = dict(
+    level="exploration",
+    technique="property-based testing (rapid): generated add/remove/query histories on generated configurations through the public API against a fake Redis that runs the filter's real Lua scripts inside a testing/synctest bubble; oracle = multiset model for the API answers + a reference removal evaluated on the server's own counters (HGETALL before/after every call, the counters of an item taken from the script ARGV)",
+    level_text="Half of the configurations are tiny (2-26 counters) so that index sets of different items collide; histories of up to 30 calls mix removals of held items with removals of items that were never added or already removed, single and multi; the hash is read back after every call.",
+    level_note="Sequential histories of one client (the scripts are atomic on the server). After a false-positive removal (an item the model does not hold whose counters are all covered by other items) the premise of the property is gone and the model is suspended until Delete. The clause remove-effect (a removable item is decremented exactly once per counter use, items taken in argument order) goes slightly beyond the property text. " + LIMITS,
+    units=[U("harness", "props", "TestVerif_C36_CountingBloom", T(800, timeout=300), T(3000, shards=16, timeout=1500))],
+)
+
+PROPS["C37"] = dict(
+    level="exploration",
+    technique="property-based testing (rapid): generated timed add/query histories in a testing/synctest bubble (virtual clock shared by the client, the fake server's TIME and its key expiry) against a fake Redis that runs the filter's real Lua scripts; oracle = every item is present at every query within half a window (minus 2 ms) of its latest successful add",
+    level_text="Windows of 1-60 s including odd millisecond counts, gaps aimed at both sides of the rotation instants (a few ms before and after the rotation lock expires) and at the limit of the guaranteed half window; rotations between the add and the query are observed through the value of the last-rotation key.",
+    level_note="One client, instantaneous calls (no server latency: the scripts take their time from the server, so latency only shifts the instants). Reset's reply (rueidis.Nil on success) and the failing first call after Delete are outside the property and tolerated. Bitmaps up to 2^16 bits, at most 64 hash functions. " + LIMITS,
+    units=[U("harness", "props", "TestVerif_C37_SlidingBloom", T(800, timeout=300), T(3000, shards=16, timeout=1500))],
+)
+
+PROPS["C31"] = dict(
+    level="exploration",
+    technique="property-based testing (rapid) of generated helper-call histories in a testing/synctest bubble against a wire-level fake Redis; oracle = differential against what an external client reads per key right before/after each call (under the helper's documented command semantics) + server state after writes + scan of the frames received during the call",
+    level_text="Histories of 1-5 calls of MGet, MGetCache, JsonMGet, JsonMGetCache, MSet, MSetNX, MDel and JsonMSet over a 14-key alphabet (hash tags, empty key, binary bytes) with 0-20 keys per call, duplicates, per-key state missing / string / hash / list / JSON document, JSON paths $ . $.a .a, another client rewriting keys between calls (client-side cache entries read before, invalidated in between, past their TTL), cache on / off / RESP2, one or four pipelined connections, read helpers optionally from two goroutines at once. The returned map must have exactly the distinct input keys, each entry must be that key's own reply or error, write helpers must leave the server holding the input (MSetNX all-or-nothing with ErrMSetNXNotSet on every key), frames may only name input keys, and an empty input returns an empty map without any frame.",
+    level_note="Single client (ForceSingleClient) only in this unit: one MGET / JSON.MGET / MSET / MSETNX / DEL / JSON.MSET per call; the per-slot splitting of the cluster client (clusterMGet, doMultiSet) is not exercised here - c31Run takes the client constructor as a parameter so that a cluster variant can be plugged in. Standalone and sentinel clients share the single-client code path of the helpers (type switch in helper.go) and are not constructed. A call that follows the client's own write waits 2 virtual ms unless the client has one connection: with PipelineMultiplex the key's cache can live on another connection than the one that wrote, and the invalidation then travels asynchronously. After a failed JSON.MSET the server state is not asserted (the fake applies JSON.MSET key by key). " + LIMITS,
+    units=[U("harness", "props", "TestVerif_C31_Helpers", T(1500, timeout=300), T(6000, shards=16, timeout=1500))],
+)
+
+PROPS["C38"] = dict(
+    level="exploration",
+    technique="property-based testing (rapid): generated schedules of concurrent Allow/AllowN/Check callers at exact virtual instants in a testing/synctest bubble against a fake Redis that runs the limiter's real Lua script; oracle = admitted-units bound per (identifier, ResetAtMs) + reference model of the window/counter semantics run over the server's serial execution order + metamorphic run without the Check calls",
+    level_text="1-6 callers x 1-8 calls on 1-2 identifiers, limits 1-20, windows 1-5 s, instants exactly on and 1 ms around window ends and callers coinciding at one instant; the server log orders the script executions, the model replays them and every caller's Result{Allowed, Remaining, ResetAtMs} must be the model's (multisets per identifier, n and instant).",
+    level_note="One limiter object and one connection (requests reach the server in the order the client wrote them); calls are instantaneous in virtual time, so the client clock and the server clock agree. Allowed is not compared for n=0 (undocumented); a request at the very millisecond a window ends may be counted in either window (undocumented, the model follows the limiter). A Check that is the first request after a window ended opens a window, so the metamorphic comparison is made only when no Check did. Per-call WithCustomRateLimit options are not exercised. " + LIMITS,
+    units=[U("harness", "props", "TestVerif_C38_Limiter", T(800, timeout=300), T(3000, shards=16, timeout=1500))],
+)
+
+PROPS["C29"] = dict(
+    level="exploration",
+    technique="property-based testing (rapid) of generated stream plans in a testing/synctest bubble against a wire-level fake Redis: reply shapes, payload sizes, failing writers, mid-reply connection drops, done/deadline contexts; oracle = generated payload bytes + HasNext/io.EOF sequence + connection life cycle in the server's event log (reuse, close, pool bound) + hang detection",
+    level_text="1-3 callers x 1-4 DoStream / DoMultiStream(1-5) / plain Do calls of VREPLY commands whose replies cover blob 0-200 KiB, chunked blob, verbatim, simple, integer, double, big number, three null encodings, error replies, aggregates and attribute-prefixed replies (RESP2 subset too); the consumer's writer fails after n bytes, the server cuts the connection inside a reply, contexts are done, expire or are cancelled; BlockingPoolSize 1-2 with more callers than connections. Bytes written must equal the payload, errors must be reported per command, the stream connection must be reused after a clean stream and closed after an unclean one, never more than BlockingPoolSize open; a connection that is not returned shows as a hang.",
+    level_note="Abandoning a stream before its last WriteTo is documented misuse and not generated. Writer failures on streamed (blob/verbatim/chunked) replies run into two recorded defects (C29.writer-error-overdiscard, C29.writer-error-chunked): such cases are checked only up to the failing write. Error texts are accepted with or without the generic 'ERR ' prefix (the streaming path does not strip it, Do does). Boolean replies are outside the property text. " + LIMITS,
+    units=[U("harness", "props", "TestVerif_C29_Streaming", T(1200, timeout=300), T(4000, shards=16, timeout=1500), variants=QUEUES)],
+)
+
+PROPS["C25"] = dict(
+    level="exploration",
+    technique="property-based testing (rapid) of generated timed plans in a testing/synctest bubble against a wire-level fake Redis: dedicated sessions interleaved with pipelined and blocking traffic and calls on released handles; oracle = per-connection server log (contiguous session blocks), reference model of keys/WATCH/MULTI replayed over the log, session state of the fake at the next hand-out of the connection, hang detection",
+    level_text="1-3 dedicated sessions (Dedicated(fn) or Dedicate(); WATCH/GET/MULTI/SET/EXEC through Do and DoMulti, SetPubSubHooks with SUBSCRIBE/PSUBSCRIBE/SSUBSCRIBE, Receive, SetOnInvalidations with CLIENT TRACKING; synchronous and pipelined connection modes; released, closed or closed twice; optionally leaving a transaction open) run with generated pauses while other callers use the shared pipeline and the blocking pool (BlockingPoolSize 1-3), keys are modified and messages published from outside, and the released handles are called again. Each session's commands must be one contiguous block on one pool connection, every reply must be the one a reference model derives from the server's execution order (EXEC aborts only for the session's own WATCH), a released handle must reject every call and reach no connection, and the connection must be handed on without subscriptions, hooks, tracking or transaction state.",
+    level_note="RESP3 single client only (RESP2 Pub/Sub uses a second connection). Four recorded defects bound what is judged: state of an abandoned WATCH/MULTI survives release (C25.abandoned-tx-leaks), the clean-up after an abandoned MULTI panics on a pipelined connection (C25.abandoned-multi-panics, such plans are not generated while on record), Close on a released handle closes the connection under its next user (C25.close-after-release), SetPubSubHooks after SetOnInvalidations leaves tracking on (C25.sethooks-drops-oninvalidations). Delivery of messages while subscribed is not asserted, only that nothing arrives after release. " + LIMITS,
+    units=[U("harness", "props", "TestVerif_C25_Dedicated", T(1200, timeout=300), T(4000, shards=16, timeout=1500), variants=QUEUES)],
 )
 
 # ---- END PROPS (new entries go above this line)
